@@ -211,7 +211,8 @@ fn core_word_into_int(xs: &mut State) -> Xresult {
 }
 
 fn core_word_is_zero(xs: &mut State) -> Xresult {
-    match xs.pop_data()?.value() {
+    let val = xs.pop_data()?;
+    match val.value() {
         Cell::Int(a) => {
             let flag = Cell::from(*a == 0);
             xs.push_data(flag)
@@ -220,15 +221,13 @@ fn core_word_is_zero(xs: &mut State) -> Xresult {
             let flag = Cell::from(*a == 0.0);
             xs.push_data(flag)
         }
-        _ => {
-            let val = xs.top_data()?.clone();
-            Err(num_type_error(val))
-        }
+        _ => Err(num_type_error(val)),
     }
 }
 
 fn core_word_is_positive(xs: &mut State) -> Xresult {
-    match xs.pop_data()?.value() {
+    let val = xs.pop_data()?;
+    match val.value() {
         Cell::Int(a) => {
             let flag = Cell::from(*a > 0);
             xs.push_data(flag)
@@ -237,15 +236,13 @@ fn core_word_is_positive(xs: &mut State) -> Xresult {
             let flag = Cell::from(*a > 0.0);
             xs.push_data(flag)
         }
-        _ => {
-            let val = xs.top_data()?.clone();
-            Err(num_type_error(val))
-        }
+        _ => Err(num_type_error(val)),
     }
 }
 
 fn core_word_is_negative(xs: &mut State) -> Xresult {
-    match xs.pop_data()?.value() {
+    let val = xs.pop_data()?;
+    match val.value() {
         Cell::Int(a) => {
             let flag = Cell::from(*a < 0);
             xs.push_data(flag)
@@ -254,10 +251,7 @@ fn core_word_is_negative(xs: &mut State) -> Xresult {
             let flag = Cell::from(*a < 0.0);
             xs.push_data(flag)
         }
-        _ => {
-            let val = xs.top_data()?.clone();
-            Err(num_type_error(val))
-        }
+        _ => Err(num_type_error(val)),
     }
 }
 
